@@ -63,6 +63,11 @@ var c04Pool = []kval{
 	{"k_tm", func() interface{} { return fixedTime }},
 	{"k_err", func() interface{} { return ErrSentinel }},
 	{"k_pi", func() interface{} { i := 9; return &i }},
+	{"k_sid", func() interface{} { return struct{ ID []int }{[]int{1}} }},
+	{"k_sslug", func() interface{} { return &struct{ Slug map[string]int }{map[string]int{"a": 1}} }},
+	{"k_sidn", func() interface{} { return struct{ ID interface{} }{nil} }},
+	{"k_sidf", func() interface{} { return struct{ ID func() }{func() {}} }},
+	{"k_slst", func() interface{} { return []interface{}{struct{ ID []int }{nil}, "x", nil} }},
 }
 
 // expression-produced kinds (cannot be injected as data)
@@ -145,7 +150,7 @@ func init() {
 			return s
 		},
 		Run:  c04Run,
-		Rule: "matrices over a pool of 43 injected value kinds (nil, bools, every int/uint/float width, strings, HTML, slices/arrays/pointers to them, maps of 5 key/value typings, nil map/slice/pointer/func, struct, funcs incl. variadic, iterator, chan, time, error) plus 11 expression-produced kinds (user function object, its call, slice+x, array/hash literal, literals, unknown identifier): (operator x L x R), !L / if(L) / emission / silent statement, L[I] (+ .Field/.Method tails), L[I]=V (all triples), member and method access incl. nil receivers, for over L, L(args<=3), user functions with p params x a args (0..4), and every built-in helper taken from plush.Helpers at run time x argument lists of length <=2 (+block, +options map). Oracle: (out,nil) or (\"\",err); no panic, no step-budget exhaustion, no worker crash. All cases are non-trivial (each is a distinct kind combination).",
+		Rule: "matrices over a pool of 48 injected value kinds (nil, bools, every int/uint/float width, strings, HTML, slices/arrays/pointers to them, maps of 5 key/value typings, nil map/slice/pointer/func, struct, funcs incl. variadic, iterator, chan, time, error) plus 11 expression-produced kinds (user function object, its call, slice+x, array/hash literal, literals, unknown identifier): (operator x L x R), !L / if(L) / emission / silent statement, L[I] (+ .Field/.Method tails), L[I]=V (all triples), member and method access incl. nil receivers, for over L, L(args<=3), user functions with p params x a args (0..4), and every built-in helper taken from plush.Helpers at run time x argument lists of length <=2 (+block, +options map). Oracle: (out,nil) or (\"\",err); no panic, no step-budget exhaustion, no worker crash. All cases are non-trivial (each is a distinct kind combination).",
 		Bound: func(th bool) string {
 			if th {
 				return "all matrices complete; plus one level of nesting (L op R) op' X for every operator pair over the pool"
@@ -204,7 +209,7 @@ func c04Run(t *engine.T, shard string) {
 		l := atoms[li]
 		for _, i := range atoms {
 			for _, v := range atoms {
-				if l == "k_si" && v == "k_si" {
+				if l == v && (l == "k_si" || l == "k_slst") {
 					// a []interface{} stored into itself and then emitted: see known_findings.txt
 					t.Pattern = "cyclic-slice-emit"
 				}
